@@ -35,6 +35,8 @@ from urllib import parse as urlparse
 from http import client as httplib
 
 import gevent
+from gevent.select import select
+from gevent.ssl import SSLSocket
 
 from slimta import logging
 from slimta.smtp.reply import Reply
@@ -100,6 +102,26 @@ class HttpRelayClient(RelayPoolClient):
                 http_res.read()
             except Exception:
                 self._close_conn()
+        if self.conn and self._has_unread_input():
+            # Nothing is owed on an idle connection: the server has closed it
+            # or sent something nobody asked for, which must not be taken
+            # for the response to the next request.
+            self._close_conn()
+
+    def _has_unread_input(self):
+        assert self.conn is not None
+        sock = getattr(self.conn, 'sock', None)
+        if sock is None:
+            return False
+        try:
+            if isinstance(sock, SSLSocket) and sock.pending():
+                return True
+            readable, _, _ = select([sock], [], [], 0)
+            return bool(readable)
+        except (TypeError, ValueError):
+            return False  # Not a socket that can be polled.
+        except socket.error:
+            return True
 
     def _handle_request(self, result, envelope):
         method = self.relay.http_verb
